@@ -158,6 +158,29 @@ func (c19) Gen(r *simrt.Rand, idx int, tier string) *Case {
 			g.PriceGap = true
 		}
 	}
+	if c.Sub == "census" && idx%16 == 0 {
+		// a large journal: hundreds of directives spread over many files
+		c.Sub = "census-large"
+		g.MaxTxn = 700
+		g.MaxSpan = 700
+		g.PAssert = 0.02
+		g.PAccrual = 0
+		for try := 0; try < 8; try++ {
+			c.J = Gen(r, g)
+			if len(c.J.Dirs) >= 520 {
+				break
+			}
+		}
+		c.L = RandLayout(r, c.J, 9)
+		for len(c.L.Names) < 5 {
+			c.L = RandLayout(r, c.J, 9)
+		}
+		c.Cmd = "print"
+		for i := 0; i < 4; i++ {
+			c.Scheds = append(c.Scheds, RandSched(r))
+		}
+		return c
+	}
 	c.J = Gen(r, g)
 	c.L = RandLayout(r, c.J, 9)
 	if len(c.L.Names) < 3 {
@@ -282,6 +305,10 @@ func (c19) Eval(c *Case) (*Violation, bool) {
 	ref := RefCheck(c.J)
 	var expCensus []string
 	exact := true
+	if c.Sub == "census-large" {
+		c.Sub = "census"
+		defer func() { c.Sub = "census-large" }()
+	}
 	if c.Sub == "census" {
 		expCensus, exact = census(c.J)
 	}
